@@ -365,6 +365,28 @@ func (x *Exec) alloc(st *State) Val {
 // knownRef: a reference obtained from outside (parameter, call result) is older than anything we allocate later
 func (x *Exec) knownRef(st *State, v Val) {
 	if v.Sort != "Int" {
+		// containers of references (one level): every stored reference is older than later allocations
+		t, ok := v.GoT.(types.Type)
+		if !ok || t == nil {
+			return
+		}
+		inf := x.vc.info(v.Sort)
+		if inf == nil {
+			return
+		}
+		top := x.lookupHeap(st, "top", "Int")
+		switch u := t.Underlying().(type) {
+		case *types.Slice:
+			if _, isPtr := u.Elem().Underlying().(*types.Pointer); isPtr && inf.Kind == kSlice && inf.Elem == "Int" && !x.vc.bv {
+				e := fmt.Sprintf("(select %s kri)", x.vc.slArr(v))
+				x.assume(st, fmt.Sprintf("(forall ((kri Int)) (! (=> (and (<= 0 kri) (< kri %s)) (and (>= %s 0) (< %s %s))) :pattern (%s)))", x.vc.slLen(v), e, e, top.T, e))
+			}
+		case *types.Map:
+			if _, isPtr := u.Elem().Underlying().(*types.Pointer); isPtr && inf.Kind == kMap && inf.Elem == "Int" && !x.vc.bv {
+				e := x.vc.mapVal(v, "krk").T
+				x.assume(st, fmt.Sprintf("(forall ((krk %s)) (! (=> %s (and (>= %s 0) (< %s %s))) :pattern (%s)))", inf.Key, x.vc.mapDom(v, "krk"), e, e, top.T, e))
+			}
+		}
 		return
 	}
 	if t, ok := v.GoT.(types.Type); ok && t != nil {
@@ -1421,6 +1443,13 @@ func (x *Exec) havocMods(st *State, vars map[types.Object]bool, keys map[string]
 		}
 		x.havocKey(st, k)
 	}
+	// references held by the havocked variables (directly or in a slice/map) were allocated in earlier
+	// iterations: they are older than anything allocated from here on
+	for _, o := range objs {
+		if !x.boxed[o] {
+			x.knownRef(st, st.vars[o])
+		}
+	}
 }
 
 func (x *Exec) execFor(st *State, s *ast.ForStmt, label string) *flow {
@@ -1527,6 +1556,8 @@ func (x *Exec) execRange(st *State, s *ast.RangeStmt, label string) *flow {
 		return
 	}
 	idxName := fmt.Sprintf("idx%d", n)
+	// rngN: the value ranged over (evaluated once, before the loop), for invariants of loops over a call result
+	lc.names[fmt.Sprintf("rng%d", n)] = coll
 	keyName := ""
 	if id, ok := s.Key.(*ast.Ident); ok && id.Name != "_" {
 		keyName = id.Name
